@@ -108,11 +108,14 @@ TEXT.update({
 TEXT_ADD = {
     "C01": " Also proved: the line assembly of the synchronous StateHandle::write (exactly format output + line ending reaches State::write_buffer, the thread-local buffer is empty on every exit path) and the decision of collision_free_infix_for_rotated_file (a rotated file gets the plain name iff neither it, nor its .gz form, nor any .restart-NNNN sibling exists; otherwise a discriminant above every well-formed sibling's).",
     "C02": " FlexiLogger::log is also proved in the `if` direction (token facts: every named registered writer and, when allowed, the default channel are written to); LogSpecBuilder builds exactly its entries (unit specbuilder). Logger::build (second half, copied into a wrapper) sets the facade gate from spec.max_level() of the initial specification; logger and handle share one specification lock.",
-    "C04": " LoggerHandle::{flush, shutdown} reach the primary writer and every additional writer (token facts, loop invariants); Drop for LoggerHandle shuts the writers down iff the dropped clone is the last one (after the repair of F9); StdWriter::flush in all three modes.",
+    "C04": " LoggerHandle::{flush, shutdown} reach the primary writer and every additional writer (token facts, loop invariants); Drop for LoggerHandle shuts the writers down iff the dropped clone is the last one (after the repair of F9); StdWriter::flush in all three modes. The split of a write mode by Logger::write_mode is proved end to end: WriteMode::{without_flushing, get_flush_interval, effective_write_mode, buffersize} against exact specification functions (unit wmode, with and without the async feature: same buffering and capacities, never a self-flushing mode, the interval goes to the flusher thread), Logger::write_mode stores exactly these two values, Logger::build starts the flusher iff the interval is non-zero.",
     "C06": " latest_timestamp_file (which file an appending logger with direct timestamp naming continues) is proved against the listing oracle: configured suffix only, newest parseable time stamp, else now (eager iterator shims R16, proved fold lemma); names of rotated files are never reused (unit collide).",
     "C14": " latest_timestamp_file considers files with the configured suffix only; the cleanup removes listed files only, for every listing length (unit cleanup).",
     "C13": " Logger's duplication / target setters change exactly their field; Logger::build constructs the primary writer from the configured duplication levels and writers.",
-    "C19": " Logger::build installs exactly the configured error channel.",
+    "C19": " Logger::build installs exactly the configured error channel; a new Logger's error channel is the variant the source marks #[default] (stderr).",
+    "C10": " Start-up: the representation invariant of the Logger builder (the write mode kept for the writers never flushes on its own) is established by the constructor, kept by every setter that touches the file-writer builder and required by Logger::build; under it the `unreachable!` and `assert_eq!` of StdWriter::new are discharged (units wmode, lbuild, primary, stdw).",
+    "C15": " The write mode reaches the writers unchanged in what it means for the bytes (WriteMode::without_flushing keeps buffering and capacities; StdWriter::new / FileLogWriterBuilder setters / Logger setters hand it on field by field).",
+    "C20": " The configuration wiring is under contract: FileLogWriterBuilder::{new, every setter} (each changes exactly the field it names; LF is the default line ending, CRLF only after use_windows_line_ending), Logger::{from_spec_and_errs, every setter that touches the file-writer builder}, PrimaryWriter::{multi, stderr, stdout, test} and MultiWriter::new / StdWriter::new (each format function reaches the output it was configured for: parameter order of the constructors is read from the source on every run).",
 }
 for k, v in TEXT_ADD.items():
     if k in TEXT:
@@ -134,6 +137,7 @@ TEXT["C20"] = ("Framing only. Verus proves on the code copied from /repo that ev
                "NOT decided: fidelity of the provided format functions and JSON validity (core::fmt / serde_json code, an oracle `fmt_bytes` here); that all "
                "outputs of one record are handed the *same* DeferredNow (needs call history; only `now()` is idempotent is proved); the scaffolding around the "
                "copied closure arms (buffer_with, RefCell::try_borrow_mut, thread_local) is not verified; format function and record are opaque values.")
+TEXT["C20"] = (TEXT["C20"][0] + TEXT_ADD["C20"], TEXT["C20"][1])
 PENDING = "not reached yet in the build (units for this property are not registered); see DESIGN.md section 5"
 
 
